@@ -204,6 +204,10 @@ pub assume_specification<T: ?Sized, A: core::alloc::Allocator>
     [<std::boxed::Box<T, A> as core::convert::AsRef<T>>::as_ref] (b: &std::boxed::Box<T, A>) -> (r: &T)
     ensures r == &**b;
 
+// `[T; N]` seen as a slice
+pub assume_specification<T, const N: usize>[<[T; N] as core::convert::AsRef<[T]>>::as_ref](a: &[T; N]) -> (r: &[T])
+    ensures r@ == a@;
+
 // reflexive conversion `T -> T` (affine/projective forms are one type here)
 pub assume_specification<T>[<T as core::convert::From<T>>::from](t: T) -> (r: T)
     ensures r == t;
